@@ -7,7 +7,7 @@
 (***************************************************************************)
 EXTENDS PageSpec, TLC, Json, FiniteSets
 
-CONSTANTS MaxDepth, MaxCorrupt, Export
+CONSTANTS MaxDepth, MaxCorrupt, Export, Merge
 
 VARIABLES last, pimg, cpages, iid, cdesc
 
@@ -46,7 +46,12 @@ MCNext ==
        \/ R_Align /\ Rec([op |-> "ralign"])
 
 MCSpec == MCInit /\ [][MCNext]_<<pvars, last, pimg, cpages, iid, cdesc>>
-MCView == <<img, rs, Len(last)>>
+\* Merge = TRUE: states reached by different histories are merged (first history kept);
+\* Merge = FALSE: the full tree of histories is enumerated
+MCView == IF Merge THEN <<img, rs, Len(last)>> ELSE <<img, rs, last>>
+
+\* cache coherence with the ground truth of this model: the cached page is never an altered one
+MC_ReadCache == rs[2] >= 0 => (rs[2] < NPages(img) /\ rs[2] \notin cpages /\ rs[3] = PageOf(img, rs[2]))
 
 \* ---- C11 (read side) and C07 as action properties --------------------------------
 IsRead == Len(last') > Len(last) /\ last'[Len(last')].op = "rread"
@@ -55,7 +60,8 @@ CurPage == rs[1] \div P
 \* advances the cursor by what it returned; it never touches an altered page
 ReadReturnsLogical ==
     (IsRead /\ ~IsErr(res')) =>
-        /\ res'.ok = SubSeq(Payload(pimg), rs[1] + 1, rs[1] + Len(res'.ok))
+        /\ res'.ok = SubSeq(pimg, CurPage * PAGE + (rs[1] % P) + 1, CurPage * PAGE + (rs[1] % P) + Len(res'.ok))
+        /\ (rs[1] % P) + Len(res'.ok) <= P
         /\ rs'[1] = rs[1] + Len(res'.ok)
         /\ (Len(res'.ok) > 0 => CurPage \notin cpages)
         /\ (CurPage < NPages(img) /\ last'[Len(last')].n > 0) => Len(res'.ok) > 0
@@ -72,8 +78,15 @@ SeekTranslates ==
         res'.ok = Phys2Log(last'[Len(last')].off) /\ Log2Phys(res'.ok) = last'[Len(last')].off
 PropSeek == [][SeekTranslates]_<<pvars, last>>
 
-\* observer: what a following read(7) would give
-ObsR == RRead(img', rs', 7)[2]
+\* observer: what a following read(7) would give, and -- to expose the hidden cache state (tag and
+\* buffer) -- for every page k what "seek to its start; read the whole payload" would give, each
+\* probe starting from the state after the edge; a full page is summarised by its checksum bytes
+\* (by C11_ReadCache and the definition of cpages, a probe of page k succeeds iff the page is cached
+\*  or unaltered, and then returns the page's payload, summarised by its stored checksum bytes)
+ProbeOf(k) == IF rs'[2] = k \/ k \notin cpages THEN Ok(SubSeq(img', k * PAGE + P + 1, (k + 1) * PAGE)) ELSE Err
+RECURSIVE Probes(_)
+Probes(k) == IF k >= NPages(img') THEN <<>> ELSE <<ProbeOf(k)>> \o Probes(k + 1)
+ObsR == [next |-> RRead(img', rs', 7)[2], pages |-> Probes(0)]
 Edge == IF Export
         THEN PrintT("EDGE " \o ToJson([img |-> iid, len |-> ImgLens[iid], alter |-> cdesc,
                                        h |-> last', res |-> res', obs |-> ObsR]))
